@@ -274,14 +274,22 @@ def main(tier, seed, replay=None):
             sp2, outp2 = os.path.join(d, f"docr_{k}.json"), os.path.join(d, f"docr_{k}.rs")
             json.dump(spec2, open(sp2, "w"))
             rc2, txt2 = vlib.oas(["generate", "types", "-i", sp2, "-o", outp2, "-q"], timeout=60)
-            return rc or rc2, (txt + txt2)[-200:], outp, outp2
+            spec3 = {"openapi": "3.1.0", "info": {"title": "t", "version": "1"},
+                     "paths": {"/" + t: {"get": {"operationId": "getX", "responses": {"200": {"description": "ok"}}}}}}
+            sp3, outp3 = os.path.join(d, f"docp_{k}.json"), os.path.join(d, f"docp_{k}")
+            json.dump(spec3, open(sp3, "w"))
+            rc3, txt3 = vlib.oas(["generate", "client-mod", "-i", sp3, "-o", outp3, "-q"], timeout=60)
+            return rc or rc2 or rc3, (txt + txt2 + txt3)[-200:], outp, outp2, os.path.join(outp3, "client.rs")
         dres = vlib.pmap(doc_one, range(len(texts)))
-        okf = [f for r in dres if r[0] == 0 for f in r[2:4]]
+        okf = [f for r in dres if r[0] == 0 for f in r[2:5]]
         dsk = {x["file"]: x for x in vlib.vtool_lines("skeleton", okf)}
         inputs = [("T" + t) for t in texts] + texts + ["200: " + t for t in texts]
         model = vlib.coq_doc_lines(d, inputs)
+        # the `* Path:` line is a stored line of a Documentation value: Documentation::to_tokens (phys_lines)
+        model_p = vlib.coq_doc_lines(d, ["* Path: `GET /" + t + "`" for t in texts], fn="phys_lines (enc l)", name="doc_cases_p")
+        model = model if model_p is not None else None
         for k, t in enumerate(texts):
-            rc, txt, outp, outp2 = dres[k]
+            rc, txt, outp, outp2, outp3 = dres[k]
             n_doc += 1
             kind = "crlf" if "\r\n" in t else "cr" if "\r" in t else "lf" if "\n" in t else "none"
             doc_dist[kind] = doc_dist.get(kind, 0) + 1
@@ -300,6 +308,15 @@ def main(tier, seed, replay=None):
             if model is None:
                 continue
             want_title, want_desc = canon(model[k]), canon(model[len(texts) + k])
+            docs3 = [l[4:] for l in dsk[outp3]["literals"] if l.startswith("doc:")] if outp3 in dsk and "error" not in dsk[outp3] else None
+            if docs3 is None or not any(l.startswith(" * Path: `GET /") for l in docs3):
+                viol.append(("doc-lines", t, "client-mod", f"path {'/' + t!r}: the `* Path:` doc line was not found in client.rs"))
+                continue
+            got_path = [l.rstrip(" ") for l in docs3[next(i for i, l in enumerate(docs3) if l.startswith(" * Path: `GET /")):]]
+            want_path = canon(model_p[k])
+            if got_path != want_path:
+                viol.append(("doc-lines", t, "client-mod", f"path {'/' + t!r}: doc lines of the method {got_path} differ from the model's {want_path} (Model/DocLines.v phys_lines)"))
+                continue
             docs2 = [l[4:] for l in dsk[outp2]["literals"] if l.startswith("doc:")]
             if " Response types for getX" in docs2 and "default: Unknown response" in docs2:
                 got_resp = [l.rstrip(" ") for l in docs2[docs2.index(" Response types for getX") + 1:docs2.index("default: Unknown response")]]
